@@ -9,6 +9,8 @@
 import OtterVerif.Conc.Adder
 import OtterVerif.Conc.AdderSkeleton
 import OtterVerif.Gen.Skeleton
+import OtterVerif.Proofs.AdderGen
+import OtterVerif.Pin.AdderSites
 
 namespace OtterVerif.Props.C20Conc
 open OtterVerif
@@ -40,5 +42,23 @@ theorem c20_conc_example : ∃ s, Conc.Adder.Reach 2 s ∧ s.rd 0 = some (2, 5) 
 
 theorem skeleton_Adder_Add : Gen.Skeleton.Adder_Add = Conc.AdderSkeleton.Adder_Add := by decide
 theorem skeleton_Adder_Value : Gen.Skeleton.Adder_Value = Conc.AdderSkeleton.Adder_Value := by decide
+
+/-! ### the striped counter's arithmetic, regenerated from internal/xsync/adder.go -/
+
+/-- an Add always lands on one of the stripes Value() sums: the index `idx & (nstripes - 1)` is below nstripes (a power of two) -/
+theorem c20_gen_stripe_in_range (n idx : BitVec 32) (k : Nat) (hk : k ≤ 31) (hn : n.toNat = 2 ^ k) :
+    (Gen.AdderSites.Adder_Add_x0 (Gen.AdderSites.NewAdder_x0 n) idx).toNat < n.toNat :=
+  (Proofs.AdderGen.stripe_in_range n idx k hk hn).2
+
+/-- an Add installs `cnt + delta`; Value starts from 0, visits every stripe below len(stripes) once and adds its load -/
+theorem c20_gen_add_and_value (cnt delta i len v x : BitVec 64) (hi : i.toNat < 2 ^ 62) (hl : len.toNat < 2 ^ 62) :
+    Gen.AdderSites.Adder_Add_x1 cnt delta = cnt + delta ∧
+    Gen.AdderSites.Adder_Value_a0 = 0#64 ∧ Gen.AdderSites.Adder_Value_a1 = 0#64 ∧
+    Gen.AdderSites.Adder_Value_c0 i len = decide (i.toNat < len.toNat) ∧
+    Gen.AdderSites.Adder_Value_u0 i = i + 1#64 ∧ Gen.AdderSites.Adder_Value_u1 x v = v + x :=
+  ⟨rfl, (Proofs.AdderGen.value_walk i len v x hi hl).1, (Proofs.AdderGen.value_walk i len v x hi hl).2.1,
+   (Proofs.AdderGen.value_walk i len v x hi hl).2.2.1, (Proofs.AdderGen.value_walk i len v x hi hl).2.2.2.1,
+   (Proofs.AdderGen.value_walk i len v x hi hl).2.2.2.2.1⟩
+
 
 end OtterVerif.Props.C20Conc
